@@ -115,7 +115,7 @@ pub fn explore(ctx: &Ctx) {
     ctx.assume("lattice coverage of the real-valued dimensions");
     let all = d_all();
     let lats: Vec<f64> = vec![0.0, 10.0, -10.0, 23.44, -23.44, 40.0, -40.0, 50.0, -50.0, 60.0, -60.0];
-    let zs: Vec<(f64, f64)> = if quick { vec![(-77.2086, -5.0), (39.8233, 3.0), (151.2, 10.0), (0.0, 3.5), (-180.0, -12.0), (180.0, 8.5)] } else { zones(15.0, &[-3.5, -1.0, 0.0, 1.0, 3.5]) };
+    let zs: Vec<(f64, f64)> = if quick { vec![(-77.2086, -5.0), (39.8233, 3.0), (151.2, 10.0), (0.0, 3.5), (-180.0, -12.0), (180.0, 8.5)] } else { zones(30.0, &[-3.5, -1.0, 0.0, 1.0, 3.5]) };
     let mut sites = vec![];
     for (i, &lat) in lats.iter().enumerate() {
         for (j, &(lon, gmt)) in zs.iter().enumerate() {
@@ -134,7 +134,7 @@ pub fn explore(ctx: &Ctx) {
         }
     });
     // all named methods on the seam dates
-    let seam = if quick { d_seam(1600, 2399) } else { all.clone() };
+    let seam = d_seam(1600, 2399);
     let sites_m: Vec<Site> = sites.iter().cloned().step_by(if quick { 3 } else { 9 }).collect();
     let mut jobs = vec![];
     for s in &sites_m {
